@@ -30,6 +30,9 @@ IndexOK(e, n) ==
 
 Check(e) ==
     /\ IF e.unit_out # e.unit_in THEN Fail(e, "unit-differs", <<e.unit_in, e.unit_out>>) ELSE TRUE
+    \* every time stamp is a whole number of hours after the requested start date (which may carry minutes and seconds)
+    /\ IF Len(e.idx) > 0 /\ SeqSet(e.idx_sub) # {e.start_sub}
+       THEN Fail(e, "time-stamps-not-at-the-minutes-of-the-start-date:" \o e.fn, <<"start", e.start_sub, "series", e.idx_sub>>) ELSE TRUE
     \* the caller's span Quantity after the call (and after the builder it was given to before): a builder that rewrites it (another
     \* unit, same duration) breaks nothing by itself -- a divergence note; what the next builder makes of it is judged by its clauses
     /\ IF "span_left" \in DOMAIN e /\ e.span_left # e.span_written
